@@ -8,7 +8,12 @@
 // start_rtp_pub sessions with a packet dump, relay pull, the HTTP API (stat,
 // kick, start/stop relay pull, blacklist) and direct ILalServer calls; then the
 // server is disposed.  Data races are printed by the runtime on stderr; an API
-// call that does not answer within 15 s is reported as STUCK (exit 3).
+// call that does not answer within 8 s is reported as STUCK (exit 3).
+//
+// With -tags locktrace (and the build overlay made by gen/c20.py, which turns
+// lal's sync.Mutex fields into tracing mutexes) the same scenario records every
+// nested acquisition that really happens; gen/c20.py checks that each one is an
+// edge of the translator's graph.
 package main
 
 import (
@@ -224,7 +229,7 @@ func subscriber(r *rand.Rand, kind int, rtmpPort, httpPort, rtspPort int, stream
 	}
 }
 
-var apiClient = &http.Client{Timeout: 15 * time.Second}
+var apiClient = &http.Client{Timeout: 8 * time.Second}
 
 func api(apiPort int, path string, body interface{}, out interface{}) {
 	var resp *http.Response
@@ -238,7 +243,7 @@ func api(apiPort int, path string, body interface{}, out interface{}) {
 	}
 	if err != nil {
 		if ne, ok := err.(net.Error); ok && ne.Timeout() && alive() {
-			fmt.Printf("lalrace: STUCK api %s did not answer within 15s\n", path)
+			fmt.Printf("lalrace: STUCK api %s did not answer within 8s\n", path)
 			os.Exit(3)
 		}
 		return
@@ -458,8 +463,8 @@ func main() {
 	go func() { wg.Wait(); close(allDone) }()
 	select {
 	case <-allDone:
-	case <-time.After(time.Duration(secs+40) * time.Second):
-		fmt.Printf("lalrace: STUCK workers did not finish %ds after the deadline\n", 40)
+	case <-time.After(time.Duration(secs+15) * time.Second):
+		fmt.Printf("lalrace: STUCK workers did not finish %ds after the deadline\n", 15)
 		os.Exit(3)
 	}
 	disposed := make(chan struct{})
